@@ -343,6 +343,13 @@ func isBoundary(set []int, x int) bool {
 
 // enumSynth calls f for every synthetic shaped paragraph up to maxN runes.
 // wellformed = cluster boundaries are grapheme boundaries (what a shaper produces).
+// enumeration knobs (mode "words": deeper texts over a two-letter alphabet)
+var (
+	enumAlphabet = wrapAlphabet
+	enumMinN     = 1
+	enumGps      = []int{1, 2}
+)
+
 func enumSynth(maxN int, maxRuns int, variants bool, f func(s synth, wellformed bool)) {
 	var texts [][]rune
 	var gen func(cur []rune, n int)
@@ -351,11 +358,11 @@ func enumSynth(maxN int, maxRuns int, variants bool, f func(s synth, wellformed 
 			texts = append(texts, append([]rune(nil), cur...))
 			return
 		}
-		for _, a := range wrapAlphabet {
+		for _, a := range enumAlphabet {
 			gen(append(cur, a), n)
 		}
 	}
-	for n := 1; n <= maxN; n++ {
+	for n := enumMinN; n <= maxN; n++ {
 		gen(nil, n)
 	}
 	for _, text := range texts {
@@ -372,8 +379,7 @@ func enumSynth(maxN int, maxRuns int, variants bool, f func(s synth, wellformed 
 					}
 				}
 			}
-			gps := []int{1, 2}
-			for _, gp := range gps {
+			for _, gp := range enumGps {
 				var splits [][]int
 				splits = append(splits, []int{0})
 				if maxRuns >= 2 {
@@ -436,6 +442,12 @@ func wrapMain(args []string) error {
 		prefix := args[4]
 		shards, _ := strconv.Atoi(args[5])
 		full := os.Getenv("VERIF_TIER") == "thorough"
+		if mode == "words" {
+			// longer texts made of letters and spaces only: words that fit / do not fit on their own line
+			enumAlphabet = []rune{'a', ' '}
+			enumMinN = 4
+			enumGps = []int{1}
+		}
 		sw := newShardWriter(prefix, shards)
 		defer sw.close()
 		lws := make([]*shaping.LineWrapper, shards)
@@ -447,6 +459,9 @@ func wrapMain(args []string) error {
 		enumSynth(maxN, maxRuns, full, func(s synth, wf bool) {
 			if (mode == "malformed") == wf {
 				return
+			}
+			if mode == "words" && len(s.clusters) != len(s.text) && len(s.clusters) != len(s.text)-1 {
+				return // 1:1 clusters, or exactly one two-rune cluster
 			}
 			cls := "core"
 			if mode == "ls" {
@@ -486,7 +501,7 @@ func wrapMain(args []string) error {
 								} else if pick == 2 {
 									notrim = true
 								}
-								if mode != "core" && !full && rng.Intn(6) != 0 {
+								if mode == "ls" && !full && rng.Intn(6) != 0 {
 									continue
 								}
 								if mode == "core" && !full && len(s.text) == maxN && maxN >= 3 && rng.Intn(2) != 0 {
